@@ -128,7 +128,7 @@ namespace sq
                                         "safe_queue's semaphore, or an item was lost)",
                          producers_left.load(), tickets.load(), sv);
     }
-    static uint64_t count() { return vf::thorough() ? 5000 : 500; }
+    static uint64_t count() { return vf::thorough() ? 10000 : 500; }
     static void run(uint64_t idx)
     {
         vf::Rng r(vf::seed(), 0x5e00, idx);
